@@ -50,6 +50,9 @@ type Checked struct {
 	rejected     map[int]bool
 	cbExpected   map[int]bool
 	registeredAt map[int]int
+	curClosure   *Closure
+	rejKeys      []Key
+	touchAfter   int
 }
 
 func (c *Checked) probe(name string) { c.Probes[name]++ }
@@ -82,6 +85,31 @@ func (c *Checked) Step(i int) {
 	res := c.R.Exec(i)
 	evs := c.R.Events(i)
 	c.States[c.M.StateHash()] = true
+
+	if len(c.rejKeys) > 0 && (op.Kind == OpProvide || op.Kind == OpDecorate || op.Kind == OpInvoke) {
+		f := &c.H.Funcs[op.Fn]
+		touch := false
+		for _, k := range c.rejKeys {
+			if hasKey(f.AllKeys(), k) {
+				touch = true
+			}
+			for _, p := range f.LeafParams() {
+				if p.Key == k {
+					touch = true
+				}
+			}
+		}
+		if touch {
+			c.touchAfter++
+			if c.touchAfter >= 2 {
+				c.probe("reuse_after_reject")
+			}
+		}
+	}
+	c.curClosure = nil
+	if op.Kind == OpInvoke && c.modelOK() && !c.H.Cfg.DryRun {
+		c.curClosure = c.M.ClosureOf(Consumer{Scope: op.Scope, Fn: -1}, c.H.Funcs[op.Fn].LeafParams())
+	}
 
 	// ---- oracles that need only the log
 	c.checkLogRules(i, op, res, evs)
@@ -206,6 +234,38 @@ func (c *Checked) checkAcceptance(i int, op Op, res *OpResult, pred Pred) {
 	if res.Facts.Escaped {
 		c.viol(i, "api-panic", fmt.Sprintf("%s f%d panicked: %s", op.Kind, f.ID, res.Facts.EscText), "C14")
 	}
+	if v == VCycle {
+		c.probe("cycle_reported")
+		c.probe("reject_cycle")
+	}
+	if v != VOK {
+		if pred == PredDup {
+			c.probe("duplicate_attempted")
+			c.probe("reject_dup")
+		}
+		if op.Kind == OpDecorate {
+			c.probe("reject_decorate")
+		}
+		c.rejKeys = append(c.rejKeys, f.AllKeys()...)
+	} else if op.Kind == OpProvide && !c.M.Defer {
+		// near-cycle: accepted although one more edge would close a cycle
+		// is approximated by: accepted with >= 2 scopes and some parameter
+		if len(c.M.S) >= 2 && len(f.Params) > 0 && c.H.Funcs[op.Fn].Role == RoleCtor && c.wouldCloseCycle(op.Scope, f) {
+			c.probe("near_cycle_accepted")
+		}
+	}
+}
+
+// wouldCloseCycle: adding one reverse edge (some dependency of f depending on
+// one of f's results) would create a cycle -- i.e. f has a dependency with a
+// visible provider.
+func (c *Checked) wouldCloseCycle(scope int, f *Func) bool {
+	for _, p := range f.LeafParams() {
+		if len(c.M.AllProv(scope, p.Key)) > 0 {
+			return true
+		}
+	}
+	return false
 }
 
 // ---------------------------------------------------------------- log rules (C02, C03 part, C07, C06 part)
@@ -296,7 +356,12 @@ func (c *Checked) checkLogRules(i int, op Op, res *OpResult, evs []Event) {
 	}
 	// C07 retry: the previous op was the same Invoke and failed because of
 	// prevFail -> this one must execute prevFail again.
-	if c.prevFail >= 0 && c.prevFailOp == i-1 && c.sameInvoke(i-1, i) {
+	// (A dependency loop through a decorator may have cached what the Invoke
+	// needs on the first attempt, so the claim is made only when the model's
+	// closure of this Invoke still contains the failed function and no
+	// decorator loop is involved.)
+	if c.prevFail >= 0 && c.prevFailOp == i-1 && c.sameInvoke(i-1, i) &&
+		c.curClosure != nil && c.curClosure.Fns[c.prevFail] && !c.curClosure.Loop {
 		c.probe("retry_after_failure")
 		if !enteredHere[c.prevFail] {
 			role := c.H.Funcs[c.prevFail].Role
@@ -809,7 +874,7 @@ func (c *Checked) checkInvokeModel(i int, op Op, res *OpResult, evs []Event) {
 	inv := &c.H.Funcs[op.Fn]
 	cons := Consumer{Scope: op.Scope, Fn: -1}
 	lp := inv.LeafParams()
-	cl := m.ClosureOf(cons, lp)
+	cl := c.curClosure
 	executed := map[int]bool{}
 	anyFail := false
 	invEntered := false
@@ -864,7 +929,7 @@ func (c *Checked) checkInvokeModel(i int, op Op, res *OpResult, evs []Event) {
 		}
 		if res.Verdict == VOK {
 			c.viol(i, "cyclic-invoke-succeeded", fmt.Sprintf("Invoke f%d traverses a cycle through f%d but succeeded", inv.ID, cyc[0].Fn), "C05")
-		} else if !anyFail && v != no && !m.MissingDirect(cons, lp) && res.Verdict != VCycle && !res.Facts.Escaped {
+		} else if !anyFail && v != no && !m.MissingShallow(cons, lp) && res.Verdict != VCycle && !res.Facts.Escaped {
 			c.viol(i, "cycle-not-classified", fmt.Sprintf("Invoke f%d traverses a cycle through f%d; verdict %s (%s)", inv.ID, cyc[0].Fn, res.Verdict, res.Facts.Text), "C05", "C13")
 		}
 		return
